@@ -184,8 +184,7 @@ Proof.
     constructor; cbn; auto; tauto.
   - rewrite C, E1. reflexivity.
   - rewrite D, E1. reflexivity.
-  - unfold wal_all. cbn. rewrite G, H, E1. cbn. rewrite U. cbn. rewrite app_nil_r.
-    unfold lock_entry. unfold wal_all. rewrite U, app_nil_r. reflexivity.
+  - unfold wal_all. cbn. rewrite G, H, E1. cbn. rewrite U. cbn. rewrite !app_nil_r. reflexivity.
 Qed.
 
 (* ------------------------------------------------------------------ the relation *)
@@ -264,10 +263,17 @@ Section Sim.
   Lemma lock_of_score s s' : score s s' -> lock_of s' = lock_of s.
   Proof. intros []. unfold lock_of. rewrite ss_locked0, ss_lr0. reflexivity. Qed.
 
-  (* the volatile clauses, for a state with the same volatile part *)
-  Lemma Sim_ssame s s' T : ssame s s' -> Sim s T -> Sim s' T.
+  (* a state with the same volatile part: the WAL clauses are what remains *)
+  Lemma Sim_score s s' T :
+    score s s' -> Sim s T ->
+    Forall (rec_sub (known s')) (wal_all (wal_r s')) ->
+    Forall (rec_sub (known s')) (wal_all (wal_c s')) ->
+    (exists L, lockwal_shape n blocks (known s') (wal_all (wal_l s')) L /\
+               (TM.lock T i = None \/ TM.lock T i = convL L)) ->
+    w_unsynced (wal_l s') = [] ->
+    Sim s' T.
   Proof.
-    intros [S Wr Wl Ls Wc] H. pose proof (score_sym S) as S'.
+    intros S H Wr Wc Sh Ls. pose proof (score_sym S) as S'.
     assert (M : forall v, known s v -> known s' v) by (intros v; apply known_score; auto).
     destruct H. constructor; auto.
     - intro m. rewrite sm_soup0. split; intros [v [K C]]; exists v; split; auto; eapply known_score; eauto.
@@ -278,10 +284,18 @@ Section Sim.
     - rewrite (ss_round S). auto.
     - intros r t d k Hk. apply (ss_sent S) in Hk. eauto.
     - rewrite (ss_fuse S). auto.
-    - rewrite Wr. eapply Forall_rec_sub_mono; eauto.
-    - rewrite Wc. eapply Forall_rec_sub_mono; eauto.
-    - destruct sm_shape0 as [L [Sh Lk]]. exists L. split; auto. rewrite Wl.
-      eapply lockwal_shape_mono; [|exact Sh]. exact M.
+  Qed.
+
+  Lemma Sim_ssame s s' T : ssame s s' -> Sim s T -> Sim s' T.
+  Proof.
+    intros [S Wr Wl Ls Wc] H.
+    assert (M : forall v, known s v -> known s' v) by (intros v; apply known_score; auto).
+    apply (Sim_score S H).
+    - rewrite Wr. eapply Forall_rec_sub_mono; [exact M|apply (sm_walr H)].
+    - rewrite Wc. eapply Forall_rec_sub_mono; [exact M|apply (sm_walc H)].
+    - destruct (sm_shape H) as [L [Sh Lk]]. exists L. split; auto. rewrite Wl.
+      eapply lockwal_shape_mono; [exact M|exact Sh].
+    - apply Ls, (sm_lsync H).
   Qed.
 
   (* the engine stops (panic) or finishes: nothing is claimed about the lock any more *)
@@ -318,34 +332,35 @@ Section Sim.
     intros K H. pose proof (sm_fuse H) as F.
     pose proof (score_emit (OWrite WRound r) s F eq_refl) as S.
     assert (M : forall v, known s v -> known (emit (OWrite WRound r) s) v) by (intro v; apply known_score; auto).
-    assert (Ew : emit (OWrite WRound r) s = apply_out (OWrite WRound r) (set_outs (outs s ++ [OWrite WRound r]) None s))
-      by (apply emit_none; auto).
-    assert (H1 : Sim (set_wals (wal_r s) (wal_l s) (wal_c s) (emit (OWrite WRound r) s)) T).
-    { eapply Sim_ssame; [|exact H]. constructor; cbn; auto. rewrite Ew. constructor; cbn; auto; tauto. }
-    destruct H1. constructor; auto.
-    - rewrite Ew. cbn. rewrite wal_all_write. apply Forall_app. split.
-      + rewrite Ew in sm_walr0. cbn in sm_walr0. exact sm_walr0.
-      + constructor; auto. rewrite <- Ew. eapply rec_sub_mono; eauto.
-    - rewrite Ew. rewrite Ew in sm_walc0. exact sm_walc0.
-    - rewrite Ew. rewrite Ew in sm_shape0. exact sm_shape0.
-    - rewrite Ew. cbn. apply (sm_lsync H).
+    assert (Wr : wal_all (wal_r (emit (OWrite WRound r) s)) = wal_all (wal_r s) ++ [r])
+      by (rewrite emit_none; auto; cbn -[wal_all]; apply wal_all_write).
+    assert (Wl : wal_l (emit (OWrite WRound r) s) = wal_l s) by (rewrite emit_none; auto).
+    assert (Wc : wal_c (emit (OWrite WRound r) s) = wal_c s) by (rewrite emit_none; auto).
+    apply (Sim_score S H).
+    - rewrite Wr. apply Forall_app. split; [eapply Forall_rec_sub_mono; [exact M|apply (sm_walr H)]|].
+      constructor; auto. eapply rec_sub_mono; eauto.
+    - rewrite Wc. eapply Forall_rec_sub_mono; [exact M|apply (sm_walc H)].
+    - destruct (sm_shape H) as [L [Sh Lk]]. exists L. split; auto. rewrite Wl.
+      eapply lockwal_shape_mono; [exact M|exact Sh].
+    - rewrite Wl. apply (sm_lsync H).
   Qed.
 
   Lemma Sim_write_c r s T : rec_sub (known s) r -> Sim s T -> Sim (emit (OWrite WCommit r) s) T.
   Proof.
     intros K H. pose proof (sm_fuse H) as F.
     pose proof (score_emit (OWrite WCommit r) s F eq_refl) as S.
-    assert (Ew : emit (OWrite WCommit r) s = apply_out (OWrite WCommit r) (set_outs (outs s ++ [OWrite WCommit r]) None s))
-      by (apply emit_none; auto).
-    assert (H1 : Sim (set_wals (wal_r s) (wal_l s) (wal_c s) (emit (OWrite WCommit r) s)) T).
-    { eapply Sim_ssame; [|exact H]. constructor; cbn; auto. rewrite Ew. constructor; cbn; auto; tauto. }
-    destruct H1. constructor; auto.
-    - rewrite Ew. rewrite Ew in sm_walr0. exact sm_walr0.
-    - rewrite Ew. cbn. rewrite wal_all_write. apply Forall_app. split.
-      + rewrite Ew in sm_walc0. cbn in sm_walc0. exact sm_walc0.
-      + constructor; auto. rewrite <- Ew. eapply rec_sub_mono; [|exact K]. intro v. apply known_score; auto.
-    - rewrite Ew. rewrite Ew in sm_shape0. exact sm_shape0.
-    - rewrite Ew. cbn. apply (sm_lsync H).
+    assert (M : forall v, known s v -> known (emit (OWrite WCommit r) s) v) by (intro v; apply known_score; auto).
+    assert (Wc : wal_all (wal_c (emit (OWrite WCommit r) s)) = wal_all (wal_c s) ++ [r])
+      by (rewrite emit_none; auto; cbn -[wal_all]; apply wal_all_write).
+    assert (Wl : wal_l (emit (OWrite WCommit r) s) = wal_l s) by (rewrite emit_none; auto).
+    assert (Wr : wal_r (emit (OWrite WCommit r) s) = wal_r s) by (rewrite emit_none; auto).
+    apply (Sim_score S H).
+    - rewrite Wr. eapply Forall_rec_sub_mono; [exact M|apply (sm_walr H)].
+    - rewrite Wc. apply Forall_app. split; [eapply Forall_rec_sub_mono; [exact M|apply (sm_walc H)]|].
+      constructor; auto. eapply rec_sub_mono; eauto.
+    - destruct (sm_shape H) as [L [Sh Lk]]. exists L. split; auto. rewrite Wl.
+      eapply lockwal_shape_mono; [exact M|exact Sh].
+    - rewrite Wl. apply (sm_lsync H).
   Qed.
 
   Lemma Sim_emit o s T : sim_quiet o = true -> Sim s T -> Sim (emit o s) T.
@@ -457,7 +472,7 @@ Section Sim.
     assert (Lo : lock_of s2 = Some (round s, b)).
     { rewrite (lock_of_score Sc). subst s1. unfold lock_of. cbn. destruct x as [p|]; cbn in *; [|discriminate].
       inversion X; subst. reflexivity. }
-    destruct H. constructor; auto.
+    destruct H. constructor.
     - eapply TP.reachable_step; eauto.
     - apply frame_set_lock; auto.
     - intro m. cbn [TM.set_lock TM.soup]. rewrite sm_soup0. split; intros [v [Kv C]]; exists v; split; auto.
@@ -479,6 +494,7 @@ Section Sim.
         eapply LS_entry; [eapply lockwal_shape_mono; [exact M|exact Sh]|exact Q| |apply nparts_pos].
         apply vs_sub_known. intros u Hu. apply M. auto.
       + right. cbn. rewrite upd_same. reflexivity.
+    - exact Us.
   Qed.
 
   (* ---------------- unlock ---------------- *)
